@@ -332,7 +332,11 @@ where
         let conv = self.pub_in.conv;
         let k = |v: u128| conv(v);
         let rnd = aux_rand_elements.rand_elements();
-        let mut cols: Vec<Vec<E>> = (0..d.aux_width).map(|j| { let mut c = Vec::with_capacity(n); c.push(E::from(conv(d.aux_init[j]))); c }).collect();
+        // `aux_corruption = (usize::MAX, col, delta)`: the column is generated from a shifted initial
+        // value (all transitions hold, only an assertion on the column is violated);
+        // `(row, col, delta)` otherwise: one cell is changed after generation
+        let shift = |j: usize| match self.aux_corruption { Some((r, c, dl)) if r == usize::MAX && c == j => E::from(conv(dl)), _ => E::ZERO };
+        let mut cols: Vec<Vec<E>> = (0..d.aux_width).map(|j| { let mut c = Vec::with_capacity(n); c.push(E::from(conv(d.aux_init[j])) + shift(j)); c }).collect();
         let mut cur = vec![B::ZERO; d.width];
         let nxt = vec![B::ZERO; d.width];
         for step in 0..n - 1 {
@@ -345,7 +349,7 @@ where
             }
         }
         if let Some((row, col, delta)) = self.aux_corruption {
-            cols[col][row] += E::from(conv(delta));
+            if row != usize::MAX { cols[col][row] += E::from(conv(delta)); }
         }
         ColMatrix::new(cols)
     }
